@@ -135,9 +135,11 @@ class TransformedTargetForecaster(
         -------
         self : returns an instance of self.
         """
-        self.steps_ = self._check_steps()
+        # (data and horizon are validated first: a fit that is rejected must not
+        # leave an already fitted pipeline with unfitted steps)
         self._set_y_X(y, X)
         self._set_fh(fh)
+        self.steps_ = self._check_steps()
 
         # transform
         yt = check_y(y)
